@@ -19,6 +19,7 @@ class SimParamSource:
     request, optional size (finite source), CPU cost per ``params()`` call, optional failure."""
 
     clock = None  # set per run
+    raised = []  # (task, call index) of injected failures that actually fired (reset per run by the harness)
 
     def __init__(self, track, params, **kwargs):
         self._params = params
@@ -55,6 +56,7 @@ class SimParamSource:
             SimParamSource.clock.advance(cpu)
         raise_at = self.plan.get("params_raise_at")
         if raise_at is not None and seq == raise_at:
+            SimParamSource.raised.append((self.plan.get("task"), seq))
             raise RuntimeError(f"simulated parameter source failure at call {seq}")
         p = {k: v for k, v in self._params.items() if k != "sim"}
         p["path"] = f"/_sim/{self.plan['task']}/{self.index}/{seq}"
@@ -83,6 +85,7 @@ class SimRunner:
     """Track-plugin style runner (registered as operation type ``sim-op``)."""
 
     clock = None
+    raised = []
 
     async def __aenter__(self):
         return self
@@ -96,6 +99,7 @@ class SimRunner:
         if req["cpu_pre"]:
             SimRunner.clock.advance(req["cpu_pre"])
         if req.get("raise"):
+            SimRunner.raised.append((path, req["raise"]))
             if req["raise"] == "key":
                 raise KeyError("missing-param")
             raise RuntimeError("simulated runner failure")
